@@ -113,6 +113,12 @@ func SameValue(a, b ssa.Value) bool {
 		if ok1 && ok2 && fa.Field == fb.Field && SameValue(fa.X, fb.X) {
 			return true
 		}
+		// s[i] read twice (same slice value, same index value)
+		ia, ok1 := ua.X.(*ssa.IndexAddr)
+		ib, ok2 := ub.X.(*ssa.IndexAddr)
+		if ok1 && ok2 && SameValue(ia.X, ib.X) && SameValue(ia.Index, ib.Index) {
+			return true
+		}
 	}
 	return false
 }
